@@ -9,6 +9,7 @@
  * Hand written: C structs, the user's thread function (functor_call), the context switch (swap_context_*: assembly,
  *   together with what the scheduler does before it resumes a recycled coroutine), contract, harness. */
 #include "vx.h"
+#include <stddef.h>
 
 enum { thread_schedule_state_unknown = 0, thread_schedule_state_active = 1, thread_schedule_state_pending = 2,
        thread_schedule_state_suspended = 3, thread_schedule_state_terminated = 4 };
@@ -59,7 +60,21 @@ static struct coroutine g_fresh;             /* a newly constructed coroutine fo
 static void ctx_reset_stack(struct coroutine *c) { if (g_stack_resets < 2) g_stack_resets++; }
 static void ctx_rebind_stack(struct coroutine *c) { if (g_stack_rebinds < 2) g_stack_rebinds++; }
 static void thread_id_reset(thread_id *id) { *id = NULL; }                          /* thread_id::reset() */
-static void functor_reset(struct functor *f) { f->nonempty = false; f->token = 0; } /* unique_function::reset() */
+/* unique_function::reset(): destroys the task's function object ON the coroutine -- "the destructors may still yield" (comment in
+ * coroutine_impl::operator(), HPX #4800): a yield from there goes through coroutine_stackful_self::yield_impl, which binds ITS
+ * result (pending / suspended) in m_result and hands control to the worker; when the task is resumed the destructor finishes.
+ * The hand-over itself is not modelled; its visible effect is that m_result holds the yield's value afterwards
+ * (added after seeded change C01-9 was missed: the final {terminated} must be bound AFTER the function object is gone) */
+static void functor_reset(struct functor *f)
+{
+  f->nonempty = false; f->token = 0;
+  if (nondet_bool())
+  {
+    struct coroutine *vx_c = (struct coroutine *) ((char *) f - offsetof(struct coroutine, m_fun));
+    vx_c->m_result.first = nondet_bool() ? thread_schedule_state_pending : thread_schedule_state_suspended;
+    vx_c->m_result.second = NULL;
+  }
+}
 
 /* ---- lifted helpers ---- */
 void coroutine_self_set_self(struct coroutine_self *self)
